@@ -2,7 +2,7 @@
 from checks.enginelib import *
 
 META = {
-    "text": 'Lean: preview clauses of the component machines, stated for their product World.step (Chain, Ack, Events, the three Guard views, Floor over one event sequence, as trace validation runs them) from any state: preview_commit_rejected (a commit or a publication of a preview is rejected), dry_run_inert (+ dry_run_inert_components: every accepted event of a preview is neither commit nor publish and leaves the whole Chain state -- log, queue, lastLog, lastTXID --, the store/queue/producers/answers of Ack, the store/queue/bus/lastTx/answers of Events, the guard logs with the reservations and lookups of the real requests, and the floor log unchanged), dry_run_answers_next_id + preview_peeks_next_id + dry_run_answers_id_of_commit_point (answered with the entry its key designates, else with lastTx+1 as of its commit point whatever others commit before it answers), dry_run_releases_guard / dry_run_releases_floor (after finish / unlock nothing of the request remains held, missed, locked or read), later_history_unaffected (any accepted sequence of preview events, any number of previews, leaves the core of the product where it was; also per component), history_without_previews_chain, _ack, _events (removing every preview event from a history the machine accepts gives a history it accepts too: Chain ends in exactly the same state; Ack and Events end with the same store, queue, producers, answers, bus and lastTx). Tie: trace validation; oracle: entries vs real writes, events, twin runs without the previews.',
+    "text": 'Lean: preview clauses of the component machines, stated for their product World.step (Chain, Ack, Events, the three Guard views, Floor over one event sequence, as trace validation runs them) from any state: preview_commit_rejected (a commit or a publication of a preview is rejected), dry_run_inert (+ dry_run_inert_components: every accepted event of a preview is neither commit nor publish and leaves the whole Chain state -- log, queue, lastLog, lastTXID --, the store/queue/producers/answers of Ack, the store/queue/bus/lastTx/answers of Events, the guard logs with the reservations and lookups of the real requests, and the floor log unchanged), dry_run_answers_next_id + preview_peeks_next_id + dry_run_answers_id_of_commit_point (answered with the entry its key designates, else with lastTx+1 as of its commit point whatever others commit before it answers), dry_run_releases_guard / dry_run_releases_floor (after finish / unlock nothing of the request remains held, missed, locked or read), later_history_unaffected (any accepted sequence of preview events, any number of previews, leaves the core of the product where it was; also per component), history_without_previews_chain, _ack, _events (removing every preview event from a history the machine accepts gives a history it accepts too: Chain ends in exactly the same state; Ack and Events end with the same store, queue, producers, answers, bus and lastTx). Tie: trace validation; oracle: entries vs real writes, events, twin runs without the previews (sequential histories; concurrent ones under schedules directed to the end: a preview placed while a real revert of the same transaction is in flight), and twin runs in which ONE preview is submitted as the real write, same scenario and plan: the answer class must agree (a preview answers what the real write would answer in its position, e.g. while a write on its account is committed and not yet persisted).',
     "note": 'Trusted: Lean kernel; event extraction.',
     "technique": 'Lean 4 proof (stuttering of preview events in every component) + trace validation + twin-run oracle + regenerated commander skeleton (extract/commander -> Generated/Commander.lean on every run): well-formedness of every control path by decide, refinement of this component by the interpreted skeleton under every schedule, observed runs re-executed in the skeleton system',
     "design_ref": '5 (C14)',
